@@ -73,6 +73,19 @@ def mk_fields(rng, presence: int) -> dict:
     return out
 
 
+def big_excluded(rng, fields, f):
+    """the same fields with ONE field that flag byte f excludes made large
+    (up to several times the item limit of any run): what a signature does
+    not cover is irrelevant, whatever its size"""
+    ex = [i for i in range(1, 9) if (f >> (i - 1)) & 1]
+    if not ex:
+        return None
+    i = rng.choice(ex)
+    n = rng.choice((1000, 1024, 1025, 2000, 5000, 9000))
+    return dict(fields, **{f'sigfield{i}': bytes(rng.getrandbits(8)
+                                                 for _ in range(8)) * (n // 8)})
+
+
 def dg(case) -> bytes:
     return hashlib.blake2b(repr(case).encode(), digest_size=8).digest()
 
@@ -226,6 +239,9 @@ def signed_case(ctx, rng, f, allowed, presence, j):
             nf[f'sigfield{i}'] = bytes(rng.getrandbits(8) for _ in range(5))
             judge_check_sig(ctx, dict(base, fields=nf, tag='-excluded-field'))
             break
+    nf = big_excluded(rng, fields, f) if j % 2 == 0 else None
+    if nf is not None:
+        judge_check_sig(ctx, dict(base, fields=nf, tag='-excluded-field-large'))
     # swap two covered fields with different contents -> order matters
     if len(cov) >= 2:
         a, b = cov[0], cov[-1]
@@ -277,6 +293,8 @@ def judge_sign(ctx, rng, f, presence, j):
     fields = mk_fields(rng, presence)
     seed = bytes(rng.getrandbits(8) for _ in range(32))
     pk = sigmsg.pubkey(seed)
+    if j % 3 == 0:
+        fields = big_excluded(rng, fields, f) or fields
     case = {'kind': 'sign', 'fields': fields, 'seed': seed, 'f': f}
     ctx.evaluated()
     st, exc = run(isa.push1(seed) + isa.op('SIGN') + bytes([f]), dict(fields))
@@ -442,6 +460,10 @@ def run_shard(spec, ctx):
                     fields[f'sigfield{k}'] = b'' if (k == 5 and presence & 1) \
                         else bytes([k]) * k + bytes([presence ^ k])
             judge_get_message(ctx, f, presence, fields)
+            nf = big_excluded(rng, fields, f) if (f + presence) % 4 == 0 \
+                else None
+            if nf is not None:
+                judge_get_message(ctx, f, presence | 256, nf)
     ctx.exhaustive('GET_MESSAGE: 256 flags x 256 presence patterns')
     # (2) CHECK_SIG matrix
     j = i
